@@ -302,6 +302,10 @@ func (r *Runner) step(bctx sdk.Context, b string, i int, in Input) Line {
 		r.doReimport(bctx, &ln)
 	case "query":
 		r.doQuery(bctx, &ln)
+	case "ident":
+		r.doIdent(bctx, &ln)
+	case "gendoc":
+		r.doGendoc(bctx, &ln)
 	default:
 		panic(machineryError{"unknown input kind " + in.T})
 	}
